@@ -129,40 +129,53 @@ func c13Line1(st *c13State, l string) string {
 		if !ok0 || !ok1 || !ok2 || !ok3 {
 			return "bad-op"
 		}
-		b := newRecBackend()
-		reg := c13MkSub(b.Funcs, prefix)
-		m, args, ok := wrapperArgs(reg, t[3], ctx, n1, n2)
-		if !ok {
-			return "bad-op"
-		}
-		if t[3] == "Repositories" {
-			args[1] = reflect.ValueOf(n1)
-		}
-		res := m.Call(args)
-		if t[3] == "Repositories" || t[3] == "Tags" || t[3] == "Referrers" {
-			// the wrapped registry is consulted when the iterator runs
-			seqEvents(res[0])
-		}
-		if len(b.Calls) != 1 {
-			return fmt.Sprintf("calls=%d", len(b.Calls))
-		}
-		call := b.Calls[0]
-		var as []string
-		for i, a := range call.Args {
-			switch {
-			case a.Type() == stringType:
-				as = append(as, tok(a.String()))
-			case i+1 < len(args) && sameValue(a, args[i+1]):
-				as = append(as, "=")
-			default:
-				as = append(as, "!")
+		before := showScopeOf(ctx)
+		once := func() string {
+			b := newRecBackend()
+			reg := c13MkSub(b.Funcs, prefix)
+			m, args, ok := wrapperArgs(reg, t[3], ctx, n1, n2)
+			if !ok {
+				return "bad-op"
 			}
+			if t[3] == "Repositories" {
+				args[1] = reflect.ValueOf(n1)
+			}
+			res := m.Call(args)
+			if t[3] == "Repositories" || t[3] == "Tags" || t[3] == "Referrers" {
+				// the wrapped registry is consulted when the iterator runs
+				seqEvents(res[0])
+			}
+			if len(b.Calls) != 1 {
+				return fmt.Sprintf("calls=%d", len(b.Calls))
+			}
+			call := b.Calls[0]
+			var as []string
+			for i, a := range call.Args {
+				switch {
+				case a.Type() == stringType:
+					as = append(as, tok(a.String()))
+				case i+1 < len(args) && sameValue(a, args[i+1]):
+					as = append(as, "=")
+				default:
+					as = append(as, "!")
+				}
+			}
+			s := fmt.Sprintf("call=%s(%s) scope=%s", call.Method, strings.Join(as, ","), showScopeOf(call.Ctx))
+			if t[3] != "Repositories" && !sameAsBackendOnce(res, call) {
+				s += " res=other"
+			}
+			return s
 		}
-		s := fmt.Sprintf("call=%s(%s) scope=%s", call.Method, strings.Join(as, ","), showScopeOf(call.Ctx))
-		if t[3] != "Repositories" && !sameAsBackendOnce(res, call) {
-			s += " res=other"
+		first := once()
+		// a caller that keeps its context and calls again: the same call is made again, and the scope the
+		// caller put into its context is still the one it put there
+		if second := once(); second != first {
+			return "reuse-differs first{" + first + "} second{" + second + "}"
 		}
-		return s
+		if after := showScopeOf(ctx); after != before {
+			return "caller-scope-changed " + before + " -> " + after
+		}
+		return first
 	case t[1] == "list" && len(t) == 7:
 		prefix, ok0 := untok(t[2])
 		start, ok1 := untok(t[3])
